@@ -193,8 +193,10 @@ class Gen:
     names an earlier row, at most one default continuation per row, distinct (test,args)
     per decision, one operand per decision, distinct category names per decision."""
 
-    def __init__(self, rng, wf=True, special_text=True, prefix="", has_group=False):
+    def __init__(self, rng, wf=True, special_text=True, prefix="", has_group=False, clash_names=False):
         self.rng = rng
+        self.clash_names = clash_names  # now and then an explicit category name that another category of the decision has
+                                        # already: the name invented for an earlier unnamed test, "Other", "No Response"
         self.has_group = has_group      # also write has_group tests (group membership by group NAME) on edges of rows
                                         # that are not group splits: waits, value splits, action rows, no_op decisions
         self.wf = wf
@@ -331,6 +333,9 @@ class Gen:
                 # the category is the one already there, and the edge written last says where it leads
                 name = r.choice(sorted(inf["names"]))
             inf["names"].add(name)
+        if self.clash_names and r.random() < 0.08:
+            taken = ["Other", "No Response"] + [k[1].title() for k in sorted(inf["tests"], key=repr) if isinstance(k, tuple) and k[1] and k[1] != value]
+            name = r.choice(taken)
         return edge(value=value, variable=var, ctype=ctype, name=name)
 
     # -- rows -----------------------------------------------------------------------------
@@ -484,8 +489,8 @@ class Gen:
         return self.rows
 
 
-def gen_core_sheet(rng, n_rows, wf=True, special_text=True, has_group=False):
-    g = Gen(rng, wf=wf, special_text=special_text, has_group=has_group)
+def gen_core_sheet(rng, n_rows, wf=True, special_text=True, has_group=False, clash_names=False):
+    g = Gen(rng, wf=wf, special_text=special_text, has_group=has_group, clash_names=clash_names)
     rows = g.generate(n_rows)
     return rows, g
 
